@@ -263,6 +263,9 @@ def display_image(im, scaling='auto', vert_axis='x', horiz_axis='y',
     if scaling == 'auto':
         scaling = (ensure_scalar(im.min()), ensure_scalar(im.max()))
     if scaling is not None:
+        if im.dtype.kind in 'iub':
+            # (the differences below would wrap around in an integer type)
+            im = im.astype(float)
         im = np.maximum(im, scaling[0])
         im = np.minimum(im, scaling[1])
         im = (im-scaling[0])/(scaling[1]-scaling[0])
